@@ -80,11 +80,14 @@ pub struct Builder<'a> {
     /// allow idioms that subtract below zero / rely on wrap (cheap only at 8/16 bit)
     pub wrap_ok: bool,
     pub budget: i64,
+    /// 0: the plain idiom mix; 1: loops that are entered at least once (counted, strided, 2-adic)
+    /// drawn four times as often
+    pub focus: u8,
 }
 
 impl<'a> Builder<'a> {
     pub fn new(rng: &'a mut Rng, ncells: i64, wrap_ok: bool, budget: i64) -> Self {
-        Builder { out: String::new(), ptr: 0, rng, ncells, wrap_ok, budget }
+        Builder { out: String::new(), ptr: 0, rng, ncells, wrap_ok, budget, focus: 0 }
     }
     pub fn goto(&mut self, c: i64) {
         while self.ptr < c {
@@ -135,6 +138,20 @@ impl<'a> Builder<'a> {
             v
         }
     }
+    /// A multiplier: mostly small, sometimes around the immediate-width boundaries of the back ends
+    /// (signed / unsigned 8-bit: 127, 128, 129, 200, 255, 256, 257).
+    pub fn mult_const(&mut self) -> i64 {
+        if self.rng.chance(1, 12) {
+            let v = *self.rng.pick(&[127i64, 128, 129, 160, 200, 255, 256, 257]);
+            if self.wrap_ok && self.rng.chance(1, 4) {
+                -v
+            } else {
+                v
+            }
+        } else {
+            self.small_const()
+        }
+    }
     /// `src` is drained (by `step` per iteration) into the destinations with multipliers.
     pub fn drain(&mut self, src: i64, dsts: &[(i64, i64)], step: i64) {
         self.goto(src);
@@ -173,9 +190,20 @@ impl<'a> Builder<'a> {
 
 /// Structured programs over a handful of cells.
 pub fn structured(rng: &mut Rng, wrap_ok: bool, size: i64) -> String {
+    let focus = rng.chance(1, 5) as u8;
+    structured_with(rng, wrap_ok, size, focus)
+}
+
+/// `structured` with the at-least-once-loop focus always on (C05's halting population).
+pub fn structured_once_loops(rng: &mut Rng, wrap_ok: bool, size: i64) -> String {
+    structured_with(rng, wrap_ok, size, 1)
+}
+
+fn structured_with(rng: &mut Rng, wrap_ok: bool, size: i64, focus: u8) -> String {
     let hi_cells = if rng.chance(1, 4) { 14 } else { 7 };
     let ncells = rng.range(3, hi_cells);
     let mut b = Builder::new(rng, ncells, wrap_ok, size);
+    b.focus = focus;
     // Seed some cells from input or constants.
     let nseed = b.rng.range(1, 3);
     for _ in 0..nseed {
@@ -237,6 +265,12 @@ fn stmt(b: &mut Builder, depth: u32, protected: &mut Vec<i64>) {
         4,                          // 18 strided loop on (copy of a cell + constant): symbolic 2-adic trip counts, results to 1-2 cells
         if depth >= 2 { 0 } else { 4 }, // 19 the same expression over two cells computed before and inside two sibling loops (value numbering across loops)
     ];
+    let mut w = w;
+    if b.focus == 1 {
+        for i in [4usize, 11, 13, 18] {
+            w[i] *= 4;
+        }
+    }
     match b.rng.weighted(&w) {
         0 => {
             let c = b.cell_not(protected);
@@ -260,7 +294,7 @@ fn stmt(b: &mut Builder, depth: u32, protected: &mut Vec<i64>) {
                 let mut not = protected.clone();
                 not.push(src);
                 let d = b.cell_not(&not);
-                let k = b.small_const();
+                let k = b.mult_const();
                 dsts.push((d, k));
             }
             b.drain(src, &dsts, 1);
@@ -272,7 +306,7 @@ fn stmt(b: &mut Builder, depth: u32, protected: &mut Vec<i64>) {
             let dst = b.cell_not(&not);
             not.push(dst);
             let tmp = b.cell_not(&not);
-            let k = b.small_const();
+            let k = b.mult_const();
             b.clear(tmp);
             b.add_mul(dst, src, k, tmp);
         }
@@ -374,7 +408,7 @@ fn stmt(b: &mut Builder, depth: u32, protected: &mut Vec<i64>) {
             let mut not = protected.clone();
             not.push(c);
             let d = b.cell_not(&not);
-            let k = b.small_const();
+            let k = b.mult_const();
             b.drain(c, &[(d, k)], step);
         }
         12 => {
@@ -716,7 +750,7 @@ pub fn pressure(rng: &mut Rng, wrap_ok: bool) -> String {
         if j == i {
             j = (i + 1) % n;
         }
-        let k = b.small_const();
+        let k = b.mult_const();
         b.add_mul(i, j, k, tmp);
         if b.rng.chance(1, 8) {
             let c = b.rng.range(0, n - 1);
